@@ -3,6 +3,7 @@
   cluster is ever suspected or declared down, whatever the network does.
 -/
 import FocaModel.Proofs.CalmNet
+import FocaModel.Proofs.CalmGrow
 import FocaModel.Props.C02
 import FocaModel.Props.C07S
 import FocaModel.Props.C08H
@@ -35,17 +36,18 @@ include hl hhdr hdist
     draws; a codec that reads back what it wrote (true of the models of all four codecs). If every probe timer that
     fires while current (token of the instance's epoch, instance connected) finds its previous round answered (`RoundAnswered`: the target's Ack or a forwarded Ack arrived in time —
     the one premise that depends on latencies and clocks, explored by the simulator), then at every moment: every
-    record of every instance is Alive, and is about an identity of the cluster; no suspicion timer is pending
-    anywhere; and every datagram on the wire is a non-TurnUndead datagram from a cluster identity whose updates
+    record of every instance is Alive, at incarnation 0, and is about an identity of the cluster; every instance is
+    itself still at incarnation 0 (nobody ever had to refute anything); no suspicion timer and no forget-timer is
+    pending anywhere; and every datagram on the wire is a non-TurnUndead datagram from a cluster identity whose updates
     are all Alive. Nobody is ever suspected or declared down — not by reordering, duplication or loss of gossip, not
     by stale datagrams, not by an address conflict. -/
 theorem calm_cluster_stays_calm {n : Net} (h : CalmReach E ids n) :
-    (∀ s ∈ n.nodes, ∀ m ∈ s.ms, m.st = .alive ∧ m.id ∈ ids) ∧
-    (∀ i t, (i, t) ∈ n.timers → ∀ m inc tok, t ≠ .s2d m inc tok) ∧
-    (∀ d b, (d, b) ∈ n.wire → ∃ hd : Header, hd.dst = d ∧ hd.src ∈ ids ∧ hd.msg ≠ .turnUndead ∧
-      DatagramShape E (fun u => u.st = .alive ∧ u.id ∈ ids) hd b) := by
+    (∀ s ∈ n.nodes, s.inc = 0 ∧ ∀ m ∈ s.ms, m.st = .alive ∧ m.id ∈ ids ∧ m.inc = 0) ∧
+    (∀ i t, (i, t) ∈ n.timers → (∀ m inc tok, t ≠ .s2d m inc tok) ∧ ∀ id, t ≠ .rm id) ∧
+    (∀ d b, (d, b) ∈ n.wire → ∃ hd : Header, hd.dst = d ∧ (hd.src ∈ ids ∧ hd.srcInc = 0) ∧ hd.msg ≠ .turnUndead ∧
+      DatagramShape E (fun u => u.st = .alive ∧ u.id ∈ ids ∧ u.inc = 0) hd b) := by
   obtain ⟨h1, h2, h3⟩ := CalmNet.reachable E ids hl hhdr hdist h
-  refine ⟨fun s hs m hm => (h1 s hs).2.2.1 m hm |>.2, h3, ?_⟩
+  refine ⟨fun s hs => ⟨(h1 s hs).2.1.1, fun m hm => (h1 s hs).2.2.1 m hm |>.2⟩, h3, ?_⟩
   intro d b hw
   obtain ⟨hd, _, q1, _, q3, q4, q5⟩ := h2 d b hw
   exact ⟨hd, q1, q3, q4, q5.mono (fun u hu => hu.2)⟩
@@ -53,11 +55,38 @@ theorem calm_cluster_stays_calm {n : Net} (h : CalmReach E ids n) :
 /-- … and what a peer reads out of any datagram on the wire: only Alive claims about cluster identities -/
 theorem wire_carries_only_alive_claims {n : Net} (h : CalmReach E ids n) (d : Id) (b : Bytes) (hw : (d, b) ∈ n.wire)
     (hd : Header) (rest : Bytes) (hdec : E.codec.decHeader b = some (hd, rest)) (us : List Member) (tail : Bytes)
-    (hp : parseSection E hd rest = some (us, tail)) : ∀ u ∈ us, u.st = .alive ∧ u.id ∈ ids := by
+    (hp : parseSection E hd rest = some (us, tail)) : ∀ u ∈ us, u.st = .alive ∧ u.id ∈ ids ∧ u.inc = 0 := by
   obtain ⟨_, h2, _⟩ := CalmNet.reachable E ids hl hhdr hdist h
   obtain ⟨h0, hm, q1, q2, q3, q4, q5⟩ := h2 d b hw
   have := shape_dataOk E hl hhdr (okH := fun _ => True) (fun u hu => (mwire_iff u).1 hu.1.1) q5 q2 trivial
   exact fun u hu => ((this hd rest hdec).2 us tail hp u hu).2
+
+/-- **Views only grow.** In a fault-free run (`CalmRun`: any further deliveries, timers after answered rounds and API
+    calls, from any cluster reached that way) an instance that lists a member keeps listing it — the same identity,
+    for good: nobody is ever declared down, so no forget-timer ever exists, and no identity is ever superseded.
+    Discovery is monotone; what the simulator explores is only whether it completes (known finding F7). -/
+theorem views_only_grow {n n' : Net} (hreach : CalmReach E ids n) (hrun : CalmRun E n n') (i : Nat) (s : State)
+    (hs : n.nodes[i]? = some s) :
+    ∃ s', n'.nodes[i]? = some s' ∧ ∀ m ∈ s.ms, ∃ m' ∈ s'.ms, m'.id = m.id := by
+  -- the node is still there and every listed address stays listed at a generation at least as high …
+  have key : ∃ s', n'.nodes[i]? = some s' ∧ ∀ a g, GenInv a g s → GenInv a g s' := by
+    induction hrun with
+    | refl => exact ⟨s, hs, fun _ _ h => h⟩
+    | step hr hst ih =>
+      obtain ⟨s1, h1, hg1⟩ := ih
+      have hinv := CalmNet.reachable E ids hl hhdr hdist (CalmReach.run E ids hreach hr)
+      obtain ⟨s2, h2, hg2⟩ := CalmStep.keeps_listed E ids hinv hst i s1 h1
+      exact ⟨s2, h2, fun a g hg => hg2 a g (hg1 a g hg)⟩
+  obtain ⟨s', hs', hg⟩ := key
+  refine ⟨s', hs', fun m hm => ?_⟩
+  -- … and in a calm cluster an address has one identity
+  have hinv0 := CalmNet.reachable E ids hl hhdr hdist hreach
+  have hinv' := CalmNet.reachable E ids hl hhdr hdist (CalmReach.run E ids hreach hrun)
+  obtain ⟨m', hm', ha, _⟩ := hg m.id.addr m.id.gen ⟨m, hm, rfl, Nat.le_refl _⟩
+  refine ⟨m', hm', ?_⟩
+  have h1 := (hinv0.1 s (List.mem_of_getElem? hs)).2.2.1 m hm
+  have h2 := (hinv'.1 s' (List.mem_of_getElem? hs')).2.2.1 m' hm'
+  exact hdist m'.id h2.2.2.1 m.id h1.2.2.1 ha
 
 omit hl hhdr hdist in
 /-- non-vacuity: two fresh instances with different addresses form such a cluster; a fresh instance's (empty) probe
@@ -81,8 +110,8 @@ omit hl hhdr hdist in
     bincode and packed codecs), with any broadcast handler, debug or release -/
 example (hd : Handler) (dbg : Bool) (ids : List Id) (hdist : DistinctAddrs ids) {n : Net}
     (h : CalmReach ⟨postcardCodec, hd, dbg⟩ ids n) (s : State) (hs : s ∈ n.nodes) : ∀ m ∈ s.ms, m.st = .alive :=
-  fun m hm => ((calm_cluster_stays_calm ⟨postcardCodec, hd, dbg⟩ ids C07H.bundled_codec_laws.2.1
-    C07H.bundled_header_laws.2.1 hdist h).1 s hs m hm).1
+  fun m hm => (((calm_cluster_stays_calm ⟨postcardCodec, hd, dbg⟩ ids C07H.bundled_codec_laws.2.1
+    C07H.bundled_header_laws.2.1 hdist h).1 s hs).2 m hm).1
 
 /-! non-vacuity, with something happening: instance 1 announces itself to instance 2, the datagram is delivered,
    instance 2 now lists instance 1 as Alive (and has answered with a Feed) — a cluster covered by the theorem -/
